@@ -18,3 +18,15 @@ pub use self::lru::Lru;
 pub use self::table::TableStats;
 pub use self::tree::*;
 pub use self::value::Val;
+
+// verification hooks: re-export of module-private items (add-only, feature `verif`)
+#[cfg(feature = "verif")]
+#[allow(unused_imports)]
+pub mod verif_export {
+    pub mod lru {
+        pub use super::super::lru::*;
+    }
+    pub mod mixed_column {
+        pub use super::super::mixed_column::*;
+    }
+}
